@@ -1,4 +1,253 @@
-def check(run):
-    pass
-def replay(r):
-    return []
+"""C12, code-to-spec direction: seeded random graphs (<= 200 nodes, arbitrary float weights, random caps,
+decay settings, multiplier tables, perf caps), each call recorded as a trace of per-graph records plus the
+multi-graph totals, validated by PropagationTrace.tla; negative controls per clause."""
+from __future__ import annotations
+
+import copy
+from types import SimpleNamespace
+from typing import Any, Dict, List, Tuple
+
+from ..util import pmap, rng
+
+NOCAP = 99999
+WORDS = ["alpha", "Beta", "GAMMA", "delta", "Eps", "zeta", "eta", "Theta", "iota", "kap pa", "lam-da", "mu", "nu", "xi",
+         "omicron", "pi", "rho", "sigma", "tau", "ups", "phi", "chi", "psi", "omega", "été", "naïve", "Straße"]
+RELS = ["supports", "associates", "contradicts", "mystery", ""]
+
+
+def _weight(r):
+    k = r.random()
+    if k < 0.15:
+        return r.choice([0.0, -0.0, 1e-7, -1e-7, 1e-6, 2e-6, 1.0, -1.0, 0.5])
+    if k < 0.25:
+        return r.choice([3.0, -7.5, 1e3, 1e-3])
+    return r.uniform(-2.0, 2.0)
+
+
+def gen_world(seed: int, tidn: int):
+    """-> (graphs, text, t1cfg, perf, slice_budgets); graphs = [(gid, nodes, edges)], deterministic in (seed, tidn)"""
+    r = rng(seed, "c12trace", tidn)
+    big = (tidn % 10 == 0)
+    ngraphs = r.choice([1, 1, 2, 3])
+    graphs = []
+    kws_all: List[str] = []
+    for gi in range(ngraphs):
+        n = r.randint(13, 200) if (big and gi == 0) else r.randint(1, 12)
+        ids = [f"{'gxy'[gi]}{r.choice(['', ':', '.'])}{j}" for j in range(n)]
+        nodes = []
+        for j, nid in enumerate(ids):
+            label = r.choice(WORDS) + str(r.randint(0, 30)) if r.random() < 0.9 else ""
+            tags: List[Any] = []
+            for _ in range(r.choice([0, 0, 1, 2])):
+                tags.append(r.choice([r.choice(WORDS) + str(r.randint(0, 30)), "", 3, None, r.choice(WORDS)]))
+            nodes.append((nid, label, tags))
+            kws_all += [label] + [t for t in tags if isinstance(t, str)]
+        m = r.randint(0, min(3 * n, 400))
+        edges = []
+        for k in range(m):
+            s = r.choice(ids)
+            d = r.choice(ids) if r.random() < 0.9 else s
+            edges.append((f"e{gi}_{k}", s, d, _weight(r), r.choice(RELS)))
+        r.shuffle(nodes)
+        graphs.append((f"G{gi}", nodes, edges))
+    kws = [k for k in kws_all if k]
+    picks = [r.choice(kws) for _ in range(r.choice([0, 1, 1, 2, 3, 6]))] if kws else []
+    text = " ".join((p.upper() if r.random() < 0.5 else p) for p in picks) + r.choice(["", " and MU", " x", " ÉTÉ"])
+    loose = lambda xs, big_: r.choice(xs) if r.random() < 0.6 else big_    # noqa: E731
+    t1cfg: Dict[str, Any] = {
+        "cache": {"enabled": False},
+        "queue_budget": loose([0, 1, 2, 5, 20], 10_000), "node_budget": r.choice([0.25, 1.0, 1.5, 1.5, 4.0, 100.0]),
+        "radius_cap": loose([0, 1, 2, 3], 4), "iter_cap": loose([0, 1, 2, 3], 50), "iter_cap_layers": loose([0, 1, 2], 50),
+    }
+    mode = r.choice(["exp_floor", "exp_floor", "attn_quad"])
+    t1cfg["decay"] = {"mode": mode, "rate": r.choice([0.6, 0.5, 0.9, 1.0, 0.1]), "floor": r.choice([0.05, 0.0, 0.3]),
+                      "alpha": r.choice([0.8, 0.0, 2.0])}
+    if r.random() < 0.5:
+        t1cfg["relax_cap"] = r.choice([None, 0, 1, 2, 3, 10, 100])
+    if r.random() < 0.4:
+        t1cfg["edge_type_mult"] = {"supports": r.uniform(0, 1.5), "associates": r.uniform(0, 1), "contradicts": -0.5}
+    perf: Dict[str, Any] = {}
+    if r.random() < 0.3:
+        perf = {"enabled": True, "metrics": {"report_memory": r.random() < 0.5},
+                "t1": {"caps": {"frontier": r.choice([0, 1, 2, 8]), "visited": r.choice([0, 1, 4])}, "dedupe_window": r.choice([0, 1, 4])}}
+    sb = None
+    if r.random() < 0.4:
+        sb = {"t1_iters": r.choice([None, 0, 1, 2]), "t1_pops": r.choice([None, 0, 1, 3, 50])}
+    return graphs, text, t1cfg, perf, sb
+
+
+def _store(graphs):
+    from clematis.graph.store import InMemoryGraphStore
+    from clematis.engine.types import Node, Edge
+    st = InMemoryGraphStore()
+    for gid, nodes, edges in graphs:
+        st.upsert_nodes(gid, [Node(id=nid, label=lb, attrs=({"tags": list(tg)} if tg else {})) for nid, lb, tg in nodes])
+        if edges:
+            st.upsert_edges(gid, [Edge(id=eid, src=s, dst=d, weight=w, rel=rel) for eid, s, d, w, rel in edges])
+    return st
+
+
+def _ctx(t1cfg, perf, sb):
+    ctx = SimpleNamespace(cfg=SimpleNamespace(t1=copy.deepcopy(t1cfg), perf=copy.deepcopy(perf)))
+    if sb is not None:
+        ctx.slice_budgets = dict(sb)
+    return ctx
+
+
+def _counters(m):
+    return {"pops": m["pops"], "iters": m["iters"], "props": m["propagations"], "rhits": m["radius_cap_hits"],
+            "lhits": m["layer_cap_hits"], "nhits": m["node_budget_hits"]}
+
+
+def record(args) -> Dict[str, Any]:
+    """run the real code, return the trace (+ 'store_ok')"""
+    from . import c12
+    seed, tidn = args
+    graphs, text, t1cfg, perf, sb = gen_world(seed, tidn)
+    low = text.lower()
+    ev: List[Dict[str, Any]] = []
+    owner: Dict[str, Tuple[int, int]] = {}
+    store_ok = True
+    for gi, (gid, nodes, edges) in enumerate(graphs):
+        ids = sorted(nid for nid, _l, _t in nodes)
+        rank = {nid: i + 1 for i, nid in enumerate(ids)}
+        for nid in ids:
+            owner[nid] = (gi, rank[nid])
+        # documented seed rule, stated independently: label or (string) tag occurs in the lower-cased text
+        seeds = sorted(rank[nid] for nid, lb, tg in nodes
+                       if any(isinstance(k, str) and k and k.lower() in low for k in [lb] + list(tg)))
+        st = _store(graphs)
+        snap = c12.snapshot_store(st)
+        res = c12.call_t1(st, [gid], _ctx(t1cfg, perf, sb), text)
+        store_ok = store_ok and c12.store_unchanged(st, snap)
+        got = [d.get("id") for d in res.graph_deltas]
+        sbb = sb or {}
+        ev.append({"op": "graph", "n": len(ids), "es": [[rank[s], rank[d]] for _e, s, d, _w, _r in edges], "seeds": seeds,
+                   "radius": t1cfg["radius_cap"], "iter": t1cfg["iter_cap"], "layers": t1cfg["iter_cap_layers"],
+                   "siter": NOCAP if sbb.get("t1_iters") is None else sbb["t1_iters"],
+                   "queue": t1cfg["queue_budget"],
+                   "spops": NOCAP if sbb.get("t1_pops") is None else sbb["t1_pops"],
+                   "relax": NOCAP if t1cfg.get("relax_cap") is None else t1cfg["relax_cap"],
+                   "touched": [rank.get(i, 0) for i in got], "c": _counters(res.metrics)})
+    st = _store(graphs)
+    snap = c12.snapshot_store(st)
+    gids = [g[0] for g in graphs]
+    res = c12.call_t1(st, gids, _ctx(t1cfg, perf, sb), text)
+    store_ok = store_ok and c12.store_unchanged(st, snap)
+    ev.append({"op": "total", "touched": [owner.get(d.get("id"), (0, 0))[1] for d in res.graph_deltas], "c": _counters(res.metrics)})
+    return {"tid": tidn, "ev": ev, "store_ok": store_ok}
+
+
+def _controls(traces: List[Dict[str, Any]], per: int = 2) -> List[Tuple[str, Dict[str, Any]]]:
+    """corrupted copies of recorded traces, each with the clause that must reject it (the corruption is
+    chosen so that no earlier clause of the record can fire first)"""
+    out: List[Tuple[str, Dict[str, Any]]] = []
+
+    def add(clause, tr, i, fn):
+        if sum(1 for cl, _ in out if cl == clause) >= per:
+            return
+        t = copy.deepcopy(tr)
+        fn(t["ev"][i])
+        out.append((clause, t))
+
+    def swap(e):
+        e["touched"][0], e["touched"][1] = e["touched"][1], e["touched"][0]
+
+    def extra(e):
+        e["n"] += 1
+        e["touched"].append(e["n"])
+
+    for tr in traces:
+        for i, e in enumerate(tr["ev"]):
+            if e["op"] == "total":
+                add("CountersMatchWork", tr, i, lambda x: x["c"].__setitem__("pops", x["c"]["pops"] + 1))
+                continue
+            add("PopBudget", tr, i, lambda x: x["c"].__setitem__("pops", min(x["queue"], x["spops"]) + 1))
+            add("LayerBudget", tr, i, lambda x: x["c"].__setitem__("iters", min(x["iter"], x["layers"], x["siter"], x["radius"]) + 1))
+            if e["c"]["props"] >= 1:
+                add("RelaxBudget", tr, i, lambda x: x.__setitem__("relax", x["c"]["props"] - 1))
+            if len(e["touched"]) >= 2:
+                add("TouchedOnceSortedPerGraph", tr, i, swap)
+            add("ReachableWithinCaps", tr, i, extra)
+            src = [s for s in e["seeds"] if all(d != s for _s, d in e["es"]) and s in e["touched"]]
+            if src:
+                add("SeedsExact", tr, i, lambda x, s0=src[0]: x["touched"].remove(s0))
+    return out
+
+
+def check(run) -> None:
+    from ..tlc import TLCError
+    q = run.quick
+    n = 400 if q else 6000
+    batch = 2000
+    tids = list(range(1, n + 1))
+    controls_done = set()
+    for b0 in range(0, n, batch):
+        part = tids[b0:b0 + batch]
+        traces = pmap(record, [(run.seed, t) for t in part], chunk=8)
+        send = [{"tid": t["tid"], "ev": t["ev"]} for t in traces]
+        ctl: List[Tuple[str, Dict[str, Any]]] = []
+        if b0 == 0:
+            accepted_guess = [t for t in send if all(e.get("relax", 1) != 0 for e in t["ev"])]
+            for k, (clause, c) in enumerate(_controls(accepted_guess), 1):
+                ctl.append((clause, dict(c, tid=-k)))
+        v = run.validate_traces("PropagationTrace", {}, send + [c for _cl, c in ctl], name=f"PropagationTrace_{b0}", timeout_s=1500)
+        for clause, c in ctl:
+            verdict, pos = v[c["tid"]]
+            if verdict == "ok":
+                raise TLCError(f"PropagationTrace accepted a negative control for {clause}")
+            # the corrupted event may also trip an earlier clause of the same record; it must not be accepted,
+            # and the intended clause must be the verdict for at least one control of its kind
+            if verdict == clause:
+                controls_done.add(clause)
+            run.ok("PropagationTrace.negative_control_rejected")
+        for t in traces:
+            run.traces += 1
+            run.case(("trace", t["tid"]))
+            verdict, pos = v[t["tid"]]
+            rp = {"kind": "trace", "args": [run.seed, t["tid"]]}
+            if not t["store_ok"]:
+                run.fail("StoreUnmodified", {"clause": "StoreUnmodified", "cause": "store changed", "direction": "trace"},
+                         {"trace": t["tid"]}, f"random world {t['tid']}: the graph store differs after t1_propagate", replay=rp)
+            if verdict == "ok":
+                run.ok("PropagationTrace.accepted")
+                continue
+            e = t["ev"][pos - 1] if 0 < pos <= len(t["ev"]) else None
+            sig = {"clause": verdict, "cause": "trace"}
+            if verdict == "RelaxBudget" and e is not None:
+                sig = {"clause": verdict, "cause": "relax_cap=0" if e.get("relax") == 0 else "relax_cap>0"}
+            small = {k: e[k] for k in e if k != "es"} if e else None
+            run.fail(verdict, sig, {"trace": t["tid"], "position": pos, "event": small},
+                     f"random world {t['tid']} rejected at event {pos} ({verdict}): {small}", replay=rp)
+        if b0 == 0:
+            run.sample({"trace": {"tid": send[0]["tid"], "ev": [{k: x for k, x in e.items() if k != "es"} for e in send[0]["ev"]]}}, cap=4)
+    want = {"TouchedOnceSortedPerGraph", "PopBudget", "LayerBudget", "RelaxBudget", "ReachableWithinCaps", "SeedsExact", "CountersMatchWork"}
+    if not want <= controls_done:
+        raise TLCError(f"negative controls did not exercise clauses {sorted(want - controls_done)}")
+
+
+def replay(r) -> List[Tuple[str, dict, str]]:
+    """re-record one random world and judge it with the python restatement of the trace clauses"""
+    from . import c12
+    seed, tidn = r["args"]
+    t = record((seed, tidn))
+    fails = []
+    if not t["store_ok"]:
+        fails.append(("StoreUnmodified", {"cause": "store changed"}, "store differs after the call"))
+    for pos, e in enumerate(t["ev"], 1):
+        if e["op"] != "graph":
+            continue
+        c = e["c"]
+        if c["pops"] > min(e["queue"], e["spops"]):
+            fails.append(("PopBudget", {}, f"event {pos}: {c}"))
+        if c["iters"] > min(e["iter"], e["layers"], e["siter"], e["radius"]):
+            fails.append(("LayerBudget", {}, f"event {pos}: {c}"))
+        if e["relax"] != NOCAP and c["props"] > e["relax"]:
+            fails.append(("RelaxBudget", {"cause": "relax_cap=0" if e["relax"] == 0 else "relax_cap>0"}, f"event {pos}: propagations={c['props']} relax_cap={e['relax']}"))
+        ids = e["touched"]
+        if any(ids[i] >= ids[i + 1] for i in range(len(ids) - 1)):
+            fails.append(("TouchedOnceSortedPerGraph", {}, f"event {pos}: {ids}"))
+        ok = c12.reach([tuple(x) for x in e["es"]], e["seeds"], min(e["radius"], e["iter"], e["layers"], e["siter"]))
+        if not set(ids) <= ok:
+            fails.append(("ReachableWithinCaps", {}, f"event {pos}: {sorted(set(ids) - ok)} unreachable"))
+    return fails
